@@ -57,6 +57,26 @@ def ResolverCompatible (args : List ArgD) (r : ResolverD) : Prop :=
   -- every parameter that the call does not fill has a default
   (∀ p ∈ unfedParams r.params args, p.hasDefault = true)
 
+/-! #### an explicit model of Python's call binding (what `ResolverCompatible` is about: `Props.C13.compatible_iff_binds`) -/
+
+/-- a parameter that can be filled by keyword -/
+def kwKind (k : ParamKind) : Bool := k == .posOrKw || k == .kwOnly
+
+/-- **Python's call binding** of `f(v1, v2, v3, **{k: _ for k in K})` against the parameters `ps`:
+    1. the three positional values fill the first three positional-only / positional-or-keyword parameters, the rest
+       goes to `*args` - without `*args` there must be three such parameters (else "takes n positional arguments");
+    2. a keyword fills the positional-or-keyword / keyword-only parameter of that name - unless it was already filled
+       positionally ("got multiple values for argument"); with no such parameter (also: a positional-only parameter of
+       that name) it goes to `**kwargs` - without `**kwargs`: "got an unexpected keyword argument";
+    3. every parameter other than `*args` / `**kwargs` that received nothing needs a default ("missing required"). -/
+def bindOk (ps : List ParamD) (K : List String) : Bool :=
+  (ps.any (·.kind == .varPos) || decide (3 ≤ (positionalParams ps).length)) &&
+  K.all (fun k =>
+    match ps.find? (fun p => p.name == k && kwKind p.kind) with
+    | some p => !(leadingNames ps).contains p.name
+    | none => ps.any (·.kind == .varKw)) &&
+  ps.all (fun p => isVarKind p.kind || (leadingNames ps).contains p.name || (K.contains p.name && kwKind p.kind) || p.hasDefault)
+
 /-- only the fields of OBJECT types are ever resolved; what sits in a resolver slot must be callable -/
 def ResolverOK (s : SchemaD) (rv : Bool) (t : TypeD) (f : FieldD) : Prop :=
   ∀ r, (pickResolver s t f = some r ∨ f.subscriptionResolver = some r) → rv = true → t.kind = .object →
